@@ -840,7 +840,8 @@ struct Stream {
       e = 1;
     }
     size_t n = len;
-    if (e > 0 && (size_t)e < n) { n = (size_t)e; shorts++; W.counters["stream_short_write"]++; }
+    // (a blocking write(2) on a pipe or socket returns only when everything has been written, signals apart: no short counts there)
+    if (e > 0 && (size_t)e < n && !(blk && kind == "fd")) { n = (size_t)e; shorts++; W.counters["stream_short_write"]++; }
     sink.append(buf, n);
     W.event("stream %s write %zu", name.c_str(), n);
     return (ssize_t)n;
